@@ -28,7 +28,7 @@ func init() {
 				"pipeline limiting is enabled and passes that semaphore on.",
 			NotCovered: "the bound (current <= stop) and liveness over all schedules: they follow from the extracted transition " +
 				"table and the lock/wake-up discipline by an invariant argument that the checker does not mechanise.",
-			Rules: map[string]string{"C18-R1": "counter transition tables", "C18-R2": "counter state only under counterCond.L",
+			Rules: map[string]string{"C18-R10": "Shutdown waits for the connections before releasing the worker pool", "C18-R1": "counter transition tables", "C18-R2": "counter state only under counterCond.L",
 				"C18-R3": "Broadcast after every state change that can release waiters; no Signal",
 				"C18-R4": "slot taken/released exactly once on every accept/close path", "C18-R8": "Close marks the listener closed and wakes all waiting accepts on every path, also when the underlying listener's Close fails",
 				"C18-R7": "limiter wiring: New builds one shared counter with the configured thresholds; Limit hands every listener that shared counter and condition variable; the limiting ListenConfig wraps every stream listener; dnssvc wraps the listen config whenever a limiter is configured; the YAML thresholds reach New unchanged",
@@ -37,6 +37,8 @@ func init() {
 }
 
 func runC18(c *an.Ctx) {
+	c.Floor("C18-R10", 1)
+	c18ShutdownOrder(c)
 	dnssvcWiring(c, "C18-R9", func(dst, src string) bool {
 		n := normName(dst) + " " + normName(src)
 		return strings.Contains(n, "pipeline") || strings.Contains(n, "idletimeout") || strings.Contains(n, "listenconfig")
@@ -412,6 +414,9 @@ func runC18(c *an.Ctx) {
 			passed := ""
 			for _, e := range o.Effects {
 				if e.Kind == "call" && strings.HasSuffix(e.Name, ").acceptTCPMsg") && len(e.Args) == 6 {
+					if passed != "" && passed != e.Args[5] {
+						return "every message of the connection (the first one included) accepted under the same semaphore; got " + passed + " and " + e.Args[5]
+					}
 					passed = e.Args[5]
 				}
 			}
@@ -648,4 +653,41 @@ func c18Close(c *an.Ctx) {
 			return ""
 		},
 	})
+}
+
+// c18ShutdownOrder: a stream server's worker pool is released only after the
+// server has waited for its connections (waitShutdown).  Released earlier, a
+// connection whose read loop is still alive gets "pool closed" from Submit
+// after it has already counted the message in its wait group; its clean-up then
+// waits for ever, the connection is never closed and its slot in the shared
+// connection limiter is never given back.
+func c18ShutdownOrder(c *an.Ctx) {
+	n := 0
+	for _, fn := range c.AllFns {
+		if fn.Blocks == nil || c.IsTestFile(fn.Pos()) || fn.Name() != "Shutdown" || !strings.HasPrefix(an.FnKey(fn), "dnsserver.") {
+			continue
+		}
+		var release, wait ssa.CallInstruction
+		for _, call := range an.Calls(fn) {
+			name := an.CalleeName(call)
+			switch {
+			case strings.HasSuffix(name, "ants/v2.Pool).Release"):
+				release = call
+			case strings.HasSuffix(name, ").waitShutdown"):
+				wait = call
+			}
+		}
+		if release == nil {
+			continue
+		}
+		n++
+		k := an.FnKey(fn)
+		c.Analysed(k)
+		c.Check(wait != nil && an.Dominates(wait, release), "C18-R10", k+" releases the worker pool after waiting for the connections", fn.Pos(),
+			"waitShutdown dominates the release of the worker pool",
+			"the worker pool is released before (or without) waiting for the connections: a live connection's Submit fails after its wait group was incremented, so the connection is never closed and its limiter slot never freed")
+	}
+	if n == 0 {
+		c.Und("C18-R10", "worker pool release on shutdown", token.NoPos, "no Shutdown method releasing a worker pool found")
+	}
 }
